@@ -60,6 +60,14 @@ def catalogue(etl):
         U('valuecounts', lambda a: etl.valuecounts(a, 'k'), None),
         U('valuecounter', lambda a: [tuple(etl.valuecounter(a, 'k').items())], None),
         U('nrows', lambda a: [(etl.nrows(a),)], None),
+        U('aggregate(key function)', lambda a: etl.aggregate(a, lambda r: r[0], len, presorted=True), 'EXPECT:TB1 R2 S107.101.121 S118.97.108.117.101'),
+        U('aggregate(key function, list)', lambda a: etl.aggregate(a, lambda r: (r[0], r[1]), list, 'v', presorted=True), 'EXPECT:TB1 R2 S107.101.121 S118.97.108.117.101'),
+        U('rowreduce(key function)', lambda a: etl.rowreduce(a, lambda r: r[0], lambda k, rows: [k, len(list(rows))], header=['k', 'n'], presorted=True), None),
+        U('unpackdict(samplesize=1)', lambda a: etl.unpackdict(a, 'v', samplesize=1), None),
+        U('unpackdict(samplesize=0)', lambda a: etl.unpackdict(a, 'v', samplesize=0), None),
+        U('unpackdict(samplesize=2)', lambda a: etl.unpackdict(a, 'v', samplesize=2), None),
+        U('recast(samplesize=1)', lambda a: etl.recast(etl.melt(a, 'k'), samplesize=1), None),
+        U('fromdicts(dicts, sample=1)', lambda a: etl.fromdicts(etl.dicts(a), header=list(a[0]), sample=1), None),
         U('valuecount', lambda a: [tuple(etl.valuecount(a, 'k', 1))], None),
         U('lookup', lambda a: [tuple(etl.lookup(a, 'k').items())], None),
         U('lookupone', lambda a: [tuple(etl.lookupone(a, 'k').items())], None),
@@ -233,7 +241,7 @@ def run(ctx):
             ref = util.run_show(lambda: real(*fulls))
             if ref.startswith('TB') and out.startswith('TB') and ' ERR ' not in ref:
                 rt, ot = proto.parse_tables(ref)[0], proto.parse_tables(out)[0]
-                tablelike = name not in ('issorted', 'isunique', 'nrows', 'valuecount', 'lookup', 'lookupone', 'dictlookup', 'recordlookup', 'facet',
+                tablelike = name.split('(')[0] not in ('recast', 'unpackdict') and name not in ('issorted', 'isunique', 'nrows', 'valuecount', 'lookup', 'lookupone', 'dictlookup', 'recordlookup', 'facet',
                                          'valuecounter', 'flatten', 'columns', 'header', 'fieldnames', 'look', 'stats', 'aggregate(key=None,len)',
                                          'values', 'dicts', 'records', 'namedtuples', 'listoflists', 'typecounts', 'rowlengths', 'validate',
                                          'transpose', 'recast', 'pivot', 'unpackdict', 'valuecounts')
